@@ -2,8 +2,8 @@
 # not silently broadcast to every annotation.
 import sys, warnings
 warnings.filterwarnings('ignore')
-sys.path.insert(0, sys.argv[1] + '/src'); sys.path.insert(0, '/verif/harness')
-import stub_modules as stubmods; stubmods.install()
+sys.path.insert(0, sys.argv[1] + '/src'); sys.path.insert(0, '/root/scratch/probe')
+import stubmods; stubmods.install()
 import numpy as np, highdicom as hd
 from pydicom.sr.codedict import codes
 from highdicom.ann import AnnotationGroup, Measurements
